@@ -64,6 +64,11 @@ class _FilterObject:
         return self.fn(ev)
 
 
+class _EmptyFilterObject(_FilterObject):
+    def __len__(self) -> int:  # a callable whose truth value is False (a rule set that is still empty)
+        return 0
+
+
 def _passes(fid: str, k: int) -> bool:
     if k == SENTINEL:
         return True
@@ -566,7 +571,8 @@ class SeqInterp:
                     sigs = [getattr(insts[i], a) for i, a in cs]
                     flt = None if op["filter"] == "none" else (lambda ev, f=op["filter"]: _passes(f, ev.k))
                     if flt is not None and op["sid"] % 2:
-                        flt = _FilterObject(flt)  # a callable object as filter
+                        # a callable object as filter - every other one with a False truth value
+                        flt = _EmptyFilterObject(flt) if op["sid"] % 4 == 3 else _FilterObject(flt)
                     try:
                         if op["api"] == "method":
                             cm = sigs[0].stream_events(flt, max_queue_size=op["maxq"])
